@@ -23,7 +23,10 @@ for p in props:
             import ast
             for node in ast.parse(src).body:
                 if isinstance(node, ast.Assign) and getattr(node.targets[0], "id", None) == name:
-                    return ast.literal_eval(node.value)
+                    try:
+                        return ast.literal_eval(node.value)
+                    except ValueError:
+                        return default
             return default
         checks.append({
             "property_id": pid,
